@@ -47,8 +47,8 @@ def run(res, tier, rng):
     for _ in range(3000 if tier == "quick" else 50000):
         urls.append(gen_url(rng))
     cases = []
-    for u in urls:
-        o = random_opts(rng)
+    # every url under one sampled option setting; the corpus also under the default one
+    for u, o in [(u, random_opts(rng)) for u in urls] + [(u, dict(DEFAULTS)) for u in bad_inputs]:
         cases.append((u, o))
         res.evaluations += 1
         got = call(normalize_url, u, **o)
